@@ -2,7 +2,8 @@
 //! Ops (byte strings in hex): `c13_sk <b>`, `c13_pk <b>` -> ok|err; `c13_pub_of <scalar>`, `c13_add <P> <Q>`, `c13_sub <P> <Q>`,
 //! `c13_smul <scalar> <P>` -> point hex|err; `c13_sadd <a> <b>`, `c13_smulmul <a> <b>` -> scalar hex|err;
 //! `c13_pk_str|c13_sk_str <hex of ASCII text>` -> `ok <bytes>`|err; `c13_pk_show|c13_sk_show <b>` -> hex of the Display text|err;
-//! `c13_pk_cons|c13_sk_cons <b>` -> `ok <re-encoded> <consumed>`|err.
+//! `c13_pk_cons|c13_sk_cons <b>` -> `ok <re-encoded> <consumed>`|err;
+//! `c13_dalek_decompress <b>` -> recompressed bytes of dalek's own (permissive) decompress | err (intermediate stage of from_slice).
 use crate::c17::{le_add, le_ge, le_pow2, le_small, le_sub, L_LE};
 use crate::common::*;
 use curve25519_dalek::constants::{ED25519_BASEPOINT_POINT, EIGHT_TORSION};
@@ -31,6 +32,11 @@ pub fn exec(t: &[&str]) -> Option<String> {
             let r = PublicKey::from_slice(&b).is_ok();
             let r2 = PublicKey::try_from(&b[..]).is_ok();
             if r != r2 { format!("MISMATCH from_slice={} try_from={}", r, r2) } else { ok_err(r) }
+        }
+        ["c13_dalek_decompress", h] => {
+            let b = unhex(h);
+            if b.len() != 32 { return Some(e()); }
+            match curve25519_dalek::edwards::CompressedEdwardsY::from_slice(&b).ok().and_then(|c| c.decompress()) { Some(p) => hex(&p.compress().to_bytes()), None => e() }
         }
         ["c13_pub_of", a] => match sk(a) { Some(a) => hex(&PublicKey::from_private_key(&a).to_bytes()), None => e() },
         ["c13_add", a, b] => match (pk(a), pk(b)) {
@@ -93,6 +99,11 @@ fn pk_case(o: &mut Out, b: &[u8], fam: &str) {
     }
     let special = fam != "random";
     o.op(format!("c13_pk {}", hex(b)), special || r.is_ok());
+    if b.len() == 32 {
+        // the intermediate stage: dalek's decompress alone is permissive (non-canonical y, negative zero); the model mirrors it
+        let d = o.op(format!("c13_dalek_decompress {}", hex(b)), special);
+        if d != "err" && d != hex(b) { o.stat(&format!("pk.{}.dalek_decompress_ok_but_recompressed_differs", fam)); }
+    }
     if r.is_ok() || special {
         if b.len() == 32 {
             o.op(format!("c13_pk_show {}", hex(b)), r.is_ok());
